@@ -137,6 +137,11 @@ type UP4 struct {
 	applicationIDs     map[up4ApplicationFilter]internalApp
 	applicationIDsPool []uint8
 
+	// storeMu serialises the PFCP requests of different associations inside the plug-in:
+	// it guards meters, ueAddrToFSEID and fseidToUEAddr (plain maps) and keeps the
+	// allocate / write / roll back sequences on the ID pools free of interleavings.
+	storeMu sync.Mutex
+
 	// meters stores the mapping from <F-SEID; QER ID> -> P4 Meter Cell ID.
 	// P4 Meter Cell ID is retrieved from appMeterCellIDsPool or sessMeterCellIDsPool,
 	// depending on QER type (application/session).
@@ -538,7 +543,12 @@ func (up4 *UP4) listenToDDNs() {
 			digestData := up4.p4client.GetNextDigestData()
 
 			ueAddr := binary.BigEndian.Uint32(digestData)
-			if fseid, exists := up4.ueAddrToFSEID[ueAddr]; exists {
+
+			up4.storeMu.Lock()
+			fseid, exists := up4.ueAddrToFSEID[ueAddr]
+			up4.storeMu.Unlock()
+
+			if exists {
 				notifier.Notify(fseid)
 			}
 		}
@@ -1475,6 +1485,9 @@ func (up4 *UP4) SendMsgToUPF(method upfMsgType, all PacketForwardingRules, updat
 		logger.PfcpLog.Errorln("UP4 server not connected")
 		return ie.CauseRequestRejected
 	}
+
+	up4.storeMu.Lock()
+	defer up4.storeMu.Unlock()
 
 	up4Log := logger.PfcpLog.With("method-type", method, "all", all, "updated-rules", updated)
 	up4Log.Debugln("sending PFCP message to UP4..")
